@@ -24,11 +24,25 @@ ASSUMPTIONS = [
     'model as SEC-shaped bytes (33 bytes 02/03, 65 bytes 04) read by Key(bytes) with the default strict=True (theorem '
     'lib_pub_point_exact ties that reader to SEC 1 2.3.4); other key spellings belong to C04/C12; digests given as odd-length hex '
     'text are outside the model (bytes, lower-case hex, upper-case hex only)',
+    'sessions: Model/Ecdsa.v lib_sign_session / lib_verify_session are folds carrying the state the code keeps '
+    '(nothing for signing; _txid, x, y, _public_key of the Signature object); theorems sign_session_is_function, '
+    'verify_session_is_function, verify_session_exact say the fold is the map of the stateless functions; the '
+    'correspondence runs whole sessions in ONE adapter process / on ONE object.  use_rfc6979=False (random nonce) has '
+    'no model answer: the harness takes the nonce the object reports and judges the signature with the independent '
+    'signer (covered on the model side by explicit_nonce_is_used); not covered: Signature objects shared between threads',
 ]
 RULE = ('boundary stream (keys, digests, nonces, r/s at 0,1,n-1,n,n+1,2^256-1, s around n/2 and 2^255 via solved '
         'digests, every hash-type byte, every DER length form) + valid signatures built by an independent signer + '
         'single mutations of their encodings (padding, sign bit, lengths, tags, truncation, trailing bytes, byte '
-        'flips) + wrong keys / digests; non-trivial = the implementation returns a value (not ERR); distinct by request')
+        'flips) + wrong keys / digests + SESSIONS: signseq = many (key, digest) pairs signed in one process, pairs chosen '
+        'so that realistic cache keys collide (equal digest with keys differing by multiples of 2^61-1, 2^31-1, 2^32, 2^64, '
+        '2^128, d / n-d, equal key with digests colliding the same way, swapped key/digest, repeats, interleavings, reused '
+        'Key objects), every (r, s) compared with the model and the independent signer, nonce distinctness across '
+        'different (key, digest) pairs; vseq = ONE Signature object (from sign, create, parse_bytes / parse_hex / parse '
+        'with and without public_key=, Signature(r, s, ..)) verified through keys.verify and Signature.verify against '
+        'sequences of keys (own, negated, equal-y, unrelated; Key / HDKey / bytes / hex text in both cases / tuple / private key) and '
+        'digests, with omitted arguments, each verdict compared with the model session and independent ECDSA; '
+        'non-trivial = the implementation returns a value (not ERR); distinct by request')
 
 # ---------------------------------------------------------------- independent oracle (SEC 2 constants, SEC 1 4.1.3/4.1.4,
 # BIP66 text, RFC 6979 3.2); pure Python, does not import the library or fastecdsa
@@ -261,7 +275,7 @@ EDGE_DIGESTS = [b32(0), b32(1), b32(2), b'\xff' * 32, b32(N - 1), b32(N), b32(N 
                 b32(0xff), b'\x00' * 31 + b'\x80', b'\x80' + b'\x00' * 31, b32(P), b32(HALF), b32(HALF + 1)]
 HT_COMMON = [0, 1, 2, 3, 0x41, 0x81, 0x82, 0x83, 0xff]
 SFORMS = ['bK', 'hK', 'bH', 'hH', 'bS', 'hS']
-VFORMS = ['bbK', 'hbK', 'bhK', 'hhK', 'bbB', 'hhB']
+VFORMS = ['bbK', 'hbK', 'bhK', 'hhK', 'bbB', 'hhB', 'bbX', 'hhX']
 
 
 def rand_key(rng):
@@ -275,6 +289,191 @@ def rand_digest(rng):
     if m == 1:
         return b32(rng.choice([N, P, 1 << 256]) - rng.randrange(1, 1 << 16))
     return bytes(rng.randrange(256) for _ in range(32))
+
+
+# ---------------------------------------------------------------- sessions: what realistic cache keys confuse
+M61, M31 = (1 << 61) - 1, (1 << 31) - 1            # CPython's hash() of an int is the value mod 2^61-1 (2^31-1 on 32 bit)
+BETA = next(b for b in (pow(g, (P - 1) // 3, P) for g in range(2, 50)) if b != 1)      # (beta x, y) is on the curve too
+SEQ_SFORMS = ['bK', 'hK', 'bH', 'hH', 'bS', 'hS']
+
+
+def _uniq(seq, ok):
+    out = []
+    for v in seq:
+        if ok(v) and v not in out:
+            out.append(v)
+    return out
+
+
+def colliding_keys(d):
+    """private keys a sloppy cache key would not tell from d: congruent modulo the hash moduli and the word sizes,
+    equal low / high words, the negated key (same public x), neighbours"""
+    c = [d + M61, d + 2 * M61, N - d, d + (1 << 64), d + M31, d + (1 << 32), d - M61, d + 7 * M61, d + (1 << 31), d + (1 << 61),
+         d + (1 << 63), d + (1 << 128), d + (1 << 192), d - (1 << 64), d ^ 1, d + 1, d + 256, d + 65536, d + 1000003,
+         d % M61, d % M31, d % (1 << 64), d % (1 << 32), d % (1 << 128), d >> 64, d >> 8, (d << 8) % (1 << 256), d * 2]
+    return _uniq(c, lambda v: 1 <= v < N and v != d)
+
+
+def colliding_digests(z):
+    zi = int.from_bytes(z, 'big')
+    c = [zi + M61, zi - M61, zi + 3 * M61, zi + M31, zi + (1 << 32), zi + (1 << 64), zi + (1 << 128), zi ^ 1, zi ^ (1 << 255),
+         zi ^ (1 << 248), zi + 1, zi % M61, zi % (1 << 64), zi % (1 << 128), zi >> 128 << 128, zi + N, zi - N,
+         int.from_bytes(z[::-1], 'big'), int.from_bytes(z[16:] + z[:16], 'big')]
+    return [b32(v) for v in _uniq(c, lambda v: 0 <= v < 1 << 256 and v != zi)]
+
+
+def sstep(rng, d, msg, k=None, ht=1, form=None):
+    return '%d:%s:%s:%d:%s' % (d, hx(msg), '-' if k is None else str(k), ht, form or rng.choice(SEQ_SFORMS))
+
+
+def gen_sign_sessions(g, rng, big):
+    """many (key, digest) pairs signed in ONE process; see RULE"""
+    def session(kind, steps, mode=None):
+        g.add(kind, 'signseq %s %s' % (mode or rng.choice('rf'), ' '.join(steps)))
+
+    # the zero-heavy family: 2^b and 2^(b+61) are congruent mod 2^61-1; 2^61-1 itself hashes to 0
+    z = b32(0)
+    ks = [1, 1 << 61, 1 << 122, 1 << 183, 2, 1 << 62, M61 + 1, 2 * M61 + 1, M61, 2 * M61, 1 << 64, (1 << 64) + 1, 1 << 32]
+    session('signseq_pow2_keys', [sstep(rng, d, z) for d in (ks if big else ks[:8])] + [sstep(rng, 1, z)], 'r')
+    z = rand_digest(rng)
+    session('signseq_pow2_keys', [sstep(rng, d, z) for d in rng.sample(ks, 6)], 'f')
+    n_sess = 40 if big else 3
+    for i in range(n_sess):
+        d = rng.choice(EDGE_KEYS) if i % 4 == 3 else rand_key(rng) if i % 2 == 0 else rng.randrange(1, 1 << rng.choice([16, 60, 64, 128]))
+        z = rng.choice(EDGE_DIGESTS) if i % 5 == 4 else rand_digest(rng)
+        ck, cz = colliding_keys(d), colliding_digests(z)
+        ck = ck[:6] + rng.sample(ck[6:], min(len(ck) - 6, 12 if big else 4))        # the hash moduli always
+        cz = cz[:2] + rng.sample(cz[2:], min(len(cz) - 2, 8 if big else 3))
+        base = sstep(rng, d, z)
+        steps = [sstep(rng, x, z) for x in ck] + [sstep(rng, d, y) for y in cz]
+        # key and digest swapped (a cache keyed by their sum / xor / concatenation without a separator)
+        zi = int.from_bytes(z, 'big')
+        if 1 <= zi < N:
+            steps.append(sstep(rng, zi, b32(d)))
+        # a long message and its double-SHA256 digest: the SAME (key, digest) pair — equal signatures expected
+        if i % 3 == 0:
+            m = bytes(rng.randrange(256) for _ in range(40))
+            steps += [sstep(rng, d, m), sstep(rng, d, hashlib.sha256(hashlib.sha256(m).digest()).digest())]
+        # an explicit nonce for the pair, then the pair without one (a remembered k must not leak)
+        kx = rand_key(rng)
+        steps += [sstep(rng, d, z, kx), sstep(rng, ck[0], z, kx)]
+        if i % 2 == 0:
+            rng.shuffle(steps)
+            steps = [base] + steps
+        else:
+            steps.insert(rng.randrange(len(steps)), base)
+            steps.insert(rng.randrange(len(steps)), sstep(rng, d, z, None, 1, 'bS'))
+        # repeats: the first pair again, an earlier colliding pair again, other hash types
+        steps += [base, rng.choice(steps), sstep(rng, d, z, None, rng.choice(HT_COMMON)), sstep(rng, ck[0], z, None, 0x81)]
+        session('signseq_colliding', steps)
+    # interleaving A B A B with A, B colliding; and a session longer than any plausible cache (thorough)
+    d, z = rand_key(rng) >> 8 or 1, rand_digest(rng)
+    a, b = sstep(rng, d, z, form='hK'), sstep(rng, d + M61, z, form='hK')
+    session('signseq_interleaved', [a, b, a, b, b, a], 'r')
+    if big:
+        steps = [sstep(rng, rand_key(rng), rand_digest(rng)) for _ in range(1100)]
+        session('signseq_long', [a, b] + steps + [a, b], 'r')
+    # keys / hash types outside their range inside a session: refused, and the neighbours unharmed
+    session('signseq_with_refusals', [a, sstep(rng, 0, z), sstep(rng, N, z), b, sstep(rng, d, z, None, 256), a])
+
+
+def ktok(form, pk=None, d=None):
+    return form + (str(d) if form in 'VW' else pk.hex())
+
+
+def gen_verify_sessions(g, rng, big, valid):
+    """ONE Signature object verified against sequences of keys and digests; see RULE"""
+    n = 60 if big else 9
+    for i in range(n):
+        d, z, r, s = valid(d=rng.choice(EDGE_KEYS) if i % 6 == 0 else None, z=rng.choice(EDGE_DIGESTS) if i % 7 == 0 else None)
+        Q = pub(d)
+        d2 = rand_key(rng)
+        pts = {'own': (Q, d), 'neg': ((Q[0], P - Q[1]), N - d), 'other': (pub(d2), d2),
+               'bx': ((BETA * Q[0] % P, Q[1]), None), 'b2x': ((BETA * BETA * Q[0] % P, Q[1]), None),
+               'nbx': ((BETA * Q[0] % P, P - Q[1]), None)}
+        zi = int.from_bytes(z, 'big')
+        z1, z2 = b32((zi + 1) % (1 << 256)), rand_digest(rng)
+
+        def key(name, form=None):
+            pt, dd = pts[name]
+            form = form or rng.choice('KKHBBXY' + ('VW' if dd else ''))
+            if form in 'VW' and not dd:
+                form = 'K'
+            return ktok(form, ser_pub(pt, rng.random() < 0.6), dd)
+
+        def step(dg, kname, form=None, entry=None, dgform=None):
+            return '%s%s:%s:%s' % (entry or rng.choice('FM'), dgform or rng.choice('bbhhU'),
+                                   '*' if dg is None else hx(dg), '*' if kname is None else key(kname, form))
+
+        bad_key_b = 'B' + (b'\x04' + b32(Q[0]) + b32((Q[1] + 1) % P)).hex()
+        bad_key_k = 'K' + (b'\x04' + b32(Q[0]) + b32((Q[1] + 1) % P)).hex()
+        bad_key_x = 'X' + (b'\x04' + b32(Q[0]) + b32((Q[1] + 1) % P)).hex()
+        templates = [
+            ('own_neg_own', [step(z, 'own'), step(z, 'neg'), step(z, 'own')]),
+            ('neg_own_neg', [step(z, 'neg'), step(z, 'own'), step(z, 'neg'), step(z, 'own')]),
+            ('wrong_then_right', [step(z, 'other'), step(z, 'own'), step(z, 'other')]),
+            ('digests', [step(z, 'own'), step(z1, 'own'), step(z, 'own'), step(z2, 'own'), step(z, 'own')]),
+            ('equal_y_keys', [step(z, 'bx'), step(z, 'own'), step(z, 'b2x'), step(z, 'nbx'), step(z, 'own')]),
+            ('key_forms', [step(z, kn, f) for kn in ('own', 'neg') for f in 'KHBVWXYT'] + [step(z, 'own', 'B')]),
+            ('defaults', [step(z, 'own'), step(None, None, entry='M'), step(z1, None), step(None, 'neg', entry='M'),
+                          step(z, None), step(None, 'own', entry='M'), step(None, None, entry='M')]),
+            ('bad_key_between', [step(z, 'own'), 'Mb:%s:%s' % (hx(z), bad_key_b), step(None, None, entry='M'),
+                                 'Fh:%s:%s' % (hx(z), bad_key_k), step(None, None, entry='M'),
+                                 'Mh:%s:%s' % (hx(z), bad_key_x), step(None, None, entry='M'), step(z, 'neg'), step(z, 'own')]),
+            ('empty_digest_between', [step(z, 'own'), step(b'', 'own'), step(z, 'own'), step(z, 'neg')]),
+            ('walk', [step(rng.choice([z, z, z1, z2, None]), rng.choice(['own', 'own', 'neg', 'other', 'bx', None]),
+                           entry='M' if rng.random() < 0.5 else None) for _ in range(10)]),
+        ]
+        # with an omitted argument the entry must be the method (keys.verify needs the digest)
+        def fix(st):
+            head, dg, ka = st.split(':')
+            return st if dg != '*' else 'M' + head[1:] + ':' + dg + ':' + ka
+
+        # fresh objects, ONE process: triples a sloppy module-level cache key would confuse (digest, r or s moved by a
+        # multiple of 2^61-1 / 2^64, the negated key), the valid triple before and after the invalid ones
+        def enc_of(rr, ss):
+            e = der(rr, ss) + b'\x01'
+            return hx(e) if rng.random() < 0.7 and len(e) != 64 else hx(b32(rr) + b32(ss))
+        trip = [step(z, 'own'), step(b32((zi + M61) % (1 << 256)), 'own'), step(b32((zi + (1 << 64)) % (1 << 256)), 'own'),
+                step(z, 'own') + ':' + enc_of(r, (s + M61) % N or 1), step(z, 'own') + ':' + enc_of((r + M61) % N or 1, s),
+                step(z, 'own') + ':' + enc_of(r, (s + (1 << 64)) % N or 1), step(z, 'neg'), step(z, 'own'),
+                step(z, 'own') + ':' + enc_of(r, N - s)]
+        if i % 2:
+            trip = trip[1:] + trip[:1]
+        g.add('vseq_fresh_colliding_triples', 'vseq %s N:%s:%s %s' % (rng.choice('rf'), rng.choice('bh'), hx(der(r, s) + b'\x01'),
+                                                                       ' '.join('F' + x[1:] for x in trip)))
+        k_exp = rand_key(rng)
+        enc = der(r, s) + bytes([rng.choice(HT_COMMON)])
+        if bip66(enc) and len(enc) == 64:
+            continue
+        sources = [
+            ('sign', 'S:%s' % sstep(rng, d, z, k_exp if i % 3 else None)),
+            ('create', 'C:%s' % sstep(rng, d, z, k_exp)),
+            ('parse_nokey', 'P:%s:%s:-' % (rng.choice('bxaA'), hx(enc))),
+            ('parse_ownkey', 'P:%s:%s:%s' % (rng.choice('bxaA'), hx(enc), key('own'))),
+            ('parse_negkey', 'P:%s:%s:%s' % (rng.choice('bxaA'), hx(enc), key('neg'))),
+            ('parse_raw_otherkey', 'P:%s:%s:%s' % (rng.choice('bxaA'), hx(b32(r) + b32(s)), key('other'))),
+            ('parse_high_s', 'P:b:%s:%s' % (hx(der(r, N - s) + b'\x01'), key('neg'))),
+            ('parse_wrong_s', 'P:b:%s:-' % hx(der(r, s % (N - 1) + 1) + b'\x01')),
+            ('values', 'V:%d:%d:*:-' % (r, s)),
+            ('values_txid_key', 'V:%d:%d:%s:%s' % (r, s, hx(rng.choice([z, z1])), key(rng.choice(['own', 'neg'])))),
+            ('fresh_each_step', 'N:%s:%s' % (rng.choice('bh'), hx(enc))),
+        ]
+        for ti, (tname, steps) in enumerate(templates):
+            # quick: every template on two sources (rotating so that every pair occurs), thorough: on all of them
+            pick = sources if big else [sources[(i + ti + j * 5) % len(sources)] for j in range(2)]
+            for sname, src in pick:
+                sts = [fix(x) for x in steps]
+                if src[0] == 'N':
+                    sts = ['F' + x[1:] for x in sts if ':*' not in x]
+                g.add('vseq_' + tname, 'vseq %s %s %s' % (rng.choice('rf'), src, ' '.join(sts)))
+    # objects that cannot be built: out-of-range values, a key refused at construction, hex-text key at construction
+    d, z, r, s = valid()
+    own = ser_pub(pub(d))
+    for src in ['V:0:%d:*:-' % s, 'V:%d:%d:*:-' % (r, N), 'P:b:%s:-' % hx(der(r, N) + b'\x01'), 'P:b:%s:B%s' % (hx(der(r, s) + b'\x01'), (b'\x02' + b32(P)).hex()),
+                'P:b:%s:X%s' % (hx(der(r, s) + b'\x01'), own.hex()), 'P:b:%s:T%s' % (hx(der(r, s) + b'\x01'), own.hex()),
+                'S:%s' % sstep(rng, N, z)]:
+        g.add('vseq_no_object', 'vseq f %s Mb:%s:B%s' % (src, hx(z), own.hex()))
 
 
 class Gen:
@@ -548,6 +747,15 @@ def gen_cases(rng, tier):
                 b = bytes([lead]) + b[1:]
             g.verify('verify_random_bytes', z, b, pk)
 
+    # ---------------- the non-default random-nonce path (use_rfc6979=False): valid, low S, strict DER, fresh nonce
+    for i in range(40 if big else 6):
+        g.add('sign_random_nonce', 'signrand %d %s %d %s' % (rng.choice(EDGE_KEYS) if i % 3 == 0 else rand_key(rng),
+                                                            hx(rand_digest(rng)), rng.choice(HT_COMMON), rng.choice(SEQ_SFORMS)))
+
+    # ---------------- sessions: one process / one object
+    gen_sign_sessions(g, rng, big)
+    gen_verify_sessions(g, rng, big, valid)
+
     # ---------------- RFC 6979 generator alone, DER encoder alone
     for _ in range(400 if big else 30):
         g.add('nonce', 'nonce %d %s' % (rng.choice(EDGE_KEYS + [rand_key(rng)]), rand_digest(rng).hex()))
@@ -568,48 +776,219 @@ def gen_cases(rng, tier):
 
 
 def same(c, io, mo):
+    if c.req.startswith('signrand '):
+        return True                     # random nonce: no model answer, the oracle below judges it with the k it reports
     return io == mo.split('|')[0]
 
 
 def is_trivial(c, out):
+    if c.req.startswith('signseq '):
+        return set(out.split(';')) <= {'ERR'}
+    if c.req.startswith('vseq '):
+        return set(out.split(',')) <= {'ERR'}
     return out.startswith('ERR') or out == 'BADREQ'
 
 
 # ---------------------------------------------------------------- property-level verdict on the implementation's answer
+def check_sign(d, msg, k, ht, out):
+    """verdict on ONE answer of the signer; returns (message | None, (r, digest) | None)"""
+    if not (1 <= d < N):
+        return (None if out == 'ERR' else 'signature made with a private key outside [1, n-1]'), None
+    if not (0 <= ht <= 255):
+        return (None if out == 'ERR' else 'hash type %d outside a byte accepted' % ht), None
+    dg = hashlib.sha256(hashlib.sha256(msg).digest()).digest() if len(msg) > 32 else msg
+    z = bits2int(dg)
+    if not k:
+        k = rfc6979(d, hashlib.sha256(dg.hex().encode()).digest())
+    elif k % N == 0:
+        return (None if out == 'ERR' else 'nonce = 0 mod n produced %s' % out[:60]), None
+    exp = ec_sign(d, z, k)
+    if exp is None:
+        return (None if out == 'ERR' else 'r = 0 or s = 0 not refused'), None
+    if out == 'ERR':
+        return 'signing failed for a valid key, digest and nonce', None
+    f = out.split(' ')
+    if len(f) != 3:
+        return 'signature object inconsistent: %s' % out[:160], None
+    r, s, enc = int(f[0]), int(f[1]), unhx(f[2])
+    if not ec_verify(z, r, s, pub(d)):
+        return 'signature (r=%d, s=%d) does not verify under the signer\'s public key' % (r, s), (r, dg)
+    if s > (N - 1) // 2:
+        return 'high S returned: s = %d > (n-1)/2' % s, (r, dg)
+    if not bip66(enc) or enc != der(r, s) + bytes([ht]):
+        return 'encoding %s is not the strict DER form of (r, s) + hash type' % enc.hex(), (r, dg)
+    if r != exp[0] or s not in (exp[1], N - exp[1]):
+        return ('signature is not the one determined by (key, digest, nonce): nonce differs from RFC 6979 / the given k',
+                (r, dg))
+    return None, (r, dg)
+
+
+def signseq_failures(c, out):
+    """[(step index, message)] for a signing session"""
+    steps = c.req.split(' ')[2:]
+    outs = out.split(';')
+    if len(outs) != len(steps):
+        return [(-1, 'session of %d steps answered with %d results' % (len(steps), len(outs)))]
+    fails, seen_r, seen_req = [], {}, {}
+    for i, (st, o) in enumerate(zip(steps, outs)):
+        d, msg, k, ht, form = st.split(':')
+        d, msg, k, ht = int(d), unhx(msg), (None if k == '-' else int(k)), int(ht)
+        m, info = check_sign(d, msg, k, ht, o)
+        if m:
+            fails.append((i, 'step %d (key %x): %s' % (i, d, m)))
+        # deterministic: the same (key, message, nonce, hash type) asked again in the same process
+        rk = (d, msg, k, ht)
+        if rk in seen_req and seen_req[rk][1] != o:
+            fails.append((i, 'step %d repeats step %d and gets a different signature' % (i, seen_req[rk][0])))
+        seen_req.setdefault(rk, (i, o))
+        # nonce never shared between different (key, digest) pairs: equal r = equal nonce up to sign
+        if info is not None and k is None:
+            r, dg = info
+            if r in seen_r and seen_r[r][1:] != (d, dg):
+                j, d2, dg2 = seen_r[r]
+                fails.append((i, 'steps %d and %d: nonce shared between (key %x, digest %s) and (key %x, digest %s): '
+                                 'same r, both private keys are recoverable' % (j, i, d2, dg2.hex()[:16], d, dg.hex()[:16])))
+            seen_r.setdefault(r, (i, d, dg))
+    fails.sort(key=lambda f: 'nonce shared' not in f[1])          # the most telling message first (stable)
+    return fails
+
+
+def _key_of(tok):
+    """(curve point | None, form) of a key argument as standard ECDSA reads it"""
+    f, body = tok[0], tok[1:]
+    if f in 'VW':
+        d = int(body)
+        return (pub(d) if 1 <= d < N else None), f
+    return sec_point(bytes.fromhex(body)), f
+
+
+AMBIG = object()
+
+
+def vseq_failures(c, out):
+    """[(step index, message, key form)] for a verification session; the expected verdicts are computed here from
+    the request alone: standard ECDSA on the value the object must hold and the arguments in force (the ones given
+    in the call; for an omitted argument the one given most recently, unless a refused call makes that ambiguous)"""
+    t = c.req.split(' ')
+    src, steps = t[2].split(':'), t[3:]
+    kind = src[0]
+    rs, dg_st, key_st, tolerated = None, None, None, False
+    if kind in 'SC':
+        d, msg, k, ht = int(src[1]), unhx(src[2]), (None if src[3] == '-' else int(src[3])), int(src[4])
+        if 1 <= d < N and 0 <= ht <= 255:
+            dgb = hashlib.sha256(hashlib.sha256(msg).digest()).digest() if len(msg) > 32 else msg
+            kk = k if k else rfc6979(d, hashlib.sha256(dgb.hex().encode()).digest())
+            e = ec_sign(d, bits2int(dgb), kk) if kk % N else None
+            if e:
+                rs, dg_st, key_st = (e[0], min(e[1], N - e[1])), dgb, pub(d)
+    elif kind in 'PN':
+        ps = spec_parse(unhx(src[2]))
+        if ps is not None and 1 <= ps[0] < N and 1 <= ps[1] < N:
+            rs = ps[:2]
+        if kind == 'P' and src[3] != '-':
+            key_st, f = _key_of(src[3])
+            if key_st is None:
+                rs = None
+            elif f == 'T':
+                tolerated = True
+    elif kind == 'V':
+        r, s_ = int(src[1]), int(src[2])
+        if 1 <= r < N and 1 <= s_ < N:
+            rs = (r, s_)
+        dg_st = None if src[3] == '*' else unhx(src[3])
+        if src[4] != '-':
+            key_st, f = _key_of(src[4])
+            if key_st is None:
+                rs = None
+            elif f == 'T':
+                tolerated = True
+    if out == 'ERR':
+        if rs is None:
+            return []
+        if tolerated:
+            return []               # the key handed to the constructor was a tuple: not a documented key type
+        return [(-1, 'a well-formed signature could not be turned into a Signature object', '')]
+    outs = out.split(',')
+    if len(outs) != len(steps):
+        return [(-1, 'session of %d steps answered with %d verdicts' % (len(steps), len(outs)), '')]
+    fails = []
+    for i, (st, o) in enumerate(zip(steps, outs)):
+        head, dg, ka = st.split(':')[:3]
+        rs_i = rs
+        if kind == 'N' and st.count(':') == 3:            # the step names its own signature
+            ps = spec_parse(unhx(st.split(':')[3]))
+            rs_i = ps[:2] if ps is not None and 1 <= ps[0] < N and 1 <= ps[1] < N else None
+        form = ka[0] if ka != '*' else ''
+        if o not in ('1', '0', 'ERR'):
+            fails.append((i, 'step %d: unexpected answer %r' % (i, o[:60]), form))
+            continue
+        dg_eff = dg_st if dg == '*' else unhx(dg)
+        if ka == '*':
+            key_eff = key_st
+        else:
+            key_eff, _ = _key_of(ka)
+        # what the call leaves behind
+        refused_by_caller = ka != '*' and form in 'KHVWT' and key_eff is None
+        if not refused_by_caller:
+            if ka != '*' and (key_eff is None or form == 'T'):
+                # the library call raises / may raise half-way: what it remembers afterwards is not specified
+                if dg != '*' and dg_st is not AMBIG and unhx(dg) != dg_st:
+                    dg_st = AMBIG
+                if form == 'T' and key_eff is not None and key_eff != key_st:
+                    key_st = AMBIG
+            else:
+                if dg != '*':
+                    dg_st = unhx(dg)
+                if ka != '*':
+                    key_st = key_eff
+        if dg_eff is AMBIG or key_eff is AMBIG:
+            continue
+        if rs_i is None:
+            exp = 'ERR'
+        elif dg_eff is None or len(dg_eff) == 0 or key_eff is None:
+            exp = 'ERR'
+        else:
+            exp = '1' if ec_verify(bits2int(dg_eff), rs_i[0], rs_i[1], key_eff) else '0'
+        if form == 'T' and o == 'ERR':
+            continue                                  # a tuple is not a documented key type: refusing it is fine
+        if (o == '1') != (exp == '1'):
+            fails.append((i, 'step %d (%s): verify returns %s, standard ECDSA on the arguments in force gives %s'
+                          % (i, st[:40], o, exp), form))
+    return fails
+
+
 def prop_check(c, out):
     t = c.req.split(' ')
     if out.startswith('CRASH') or out in ('BADREQ', 'NONDET', 'BADKEY') or out.startswith('ODD'):
         return 'unexpected answer %r' % out[:120]
     if t[0] == 'sign':
         d, msg, k, ht = int(t[1]), unhx(t[2]), (None if t[3] == '-' else int(t[3])), int(t[4])
-        if not (1 <= d < N):
-            return None if out == 'ERR' else 'signature made with a private key outside [1, n-1]'
-        if not (0 <= ht <= 255):
-            return None if out == 'ERR' else 'hash type %d outside a byte accepted' % ht
-        dg = hashlib.sha256(hashlib.sha256(msg).digest()).digest() if len(msg) > 32 else msg
-        z = bits2int(dg)
-        if not k:
-            k = rfc6979(d, hashlib.sha256(dg.hex().encode()).digest())
-        elif k % N == 0:
-            return None if out == 'ERR' else 'nonce = 0 mod n produced %s' % out[:60]
-        exp = ec_sign(d, z, k)
-        if exp is None:
-            return None if out == 'ERR' else 'r = 0 or s = 0 not refused'
+        return check_sign(d, msg, k, ht, out)[0]
+    if t[0] == 'signrand':
+        d, msg, ht = int(t[1]), unhx(t[2]), int(t[3])
         if out == 'ERR':
-            return 'signing failed for a valid key, digest and nonce'
-        f = out.split(' ')
-        if len(f) != 3:
-            return 'signature object inconsistent: %s' % out[:160]
-        r, s, enc = int(f[0]), int(f[1]), unhx(f[2])
-        if not ec_verify(z, r, s, pub(d)):
-            return 'signature (r=%d, s=%d) does not verify under the signer\'s public key' % (r, s)
-        if s > (N - 1) // 2:
-            return 'high S returned: s = %d > (n-1)/2' % s
-        if not bip66(enc) or enc != der(r, s) + bytes([ht]):
-            return 'encoding %s is not the strict DER form of (r, s) + hash type' % enc.hex()
-        if r != exp[0] or s not in (exp[1], N - exp[1]):
-            return 'signature is not the one determined by (key, digest, nonce): nonce differs from RFC 6979 / the given k'
+            return 'signing with use_rfc6979=False failed for a valid key and digest'
+        parts = [o.split(' ') for o in out.split(';')]
+        if len(parts) != 2 or any(len(x) != 4 for x in parts):
+            return 'unexpected answer %r' % out[:120]
+        for x in parts:
+            k = int(x[3])
+            if not (1 <= k < N):
+                return 'random nonce %d outside [1, n-1]' % k
+            m = check_sign(d, msg, k, ht, ' '.join(x[:3]))[0]
+            if m:
+                return 'use_rfc6979=False: ' + m
+        if parts[0][3] == parts[1][3] or parts[0][0] == parts[1][0]:
+            return 'use_rfc6979=False: two signatures made with the same random nonce'
+        if min(int(parts[0][3]), int(parts[1][3])).bit_length() < 128:
+            return 'use_rfc6979=False: random nonce of only %d bits' % min(int(parts[0][3]), int(parts[1][3])).bit_length()
         return None
+    if t[0] == 'signseq':
+        f = signseq_failures(c, out)
+        return f[0][1] if f else None
+    if t[0] == 'vseq':
+        f = vseq_failures(c, out)
+        return f[0][1] if f else None
     if t[0] == 'verify':
         dg, sig, pk = unhx(t[1]), unhx(t[2]), unhx(t[3])
         if len(t) > 4 and t[4][2:] == 'L':
